@@ -22,6 +22,23 @@ def kendallTau? (a b : List Nat) : Option Nat :=
   else if a.length ≥ 2 && !(a.all (fun x => b.contains x)) then none
   else some (kt a b)
 
+/-- `norm += 1` once for every pair `j1 < j2` of the double loop -/
+def pairCount : List Nat → Nat
+  | [] => 0
+  | _ :: rest => rest.length + pairCount rest
+
+/-- outcome of `kendall_tau_distance(order1, order2, normalise=True)`: `ValueError` as for the plain
+call, `ZeroDivisionError` when no pair was compared (`res / norm` with `norm = 0`), else the exact
+fraction `res / norm` -/
+inductive KtNorm where
+  | valueError | zeroDivision | ok (num den : Nat)
+  deriving DecidableEq, Repr
+
+def kendallTauNorm (a b : List Nat) : KtNorm :=
+  match kendallTau? a b with
+  | none => .valueError
+  | some r => if pairCount a = 0 then .zeroDivision else .ok r (pairCount a)
+
 def absDiff (i j : Nat) : Nat := if i ≤ j then j - i else i - j
 
 /-- `res += abs(j - order2.index(order1[j]))` for `j = start, start+1, …` -/
